@@ -221,6 +221,10 @@ pub struct World {
     /// every resolver call since the last reset: the resolver's state is a function of it (part of the key)
     pub resolver_history: Vec<ResolverCall>,
     pub phantom_aliases: BTreeMap<u16, String>,
+    /// bindings the resolver made for a publish that neither went out nor failed validation (never legitimate)
+    pub unexplained_aliases: BTreeMap<u16, String>,
+    /// tags whose completion in the current service call is a validation failure (known before the emitted bytes are judged)
+    pub validation_failed_now: BTreeSet<u32>,
     /// C10 verdicts deferred to the end of the event: (transmitted tag, earlier tag, label)
     pub overtaken_candidates: Vec<(u32, u32, String)>,
 }
@@ -319,7 +323,7 @@ impl World {
             assigned_client_id: None, session_epoch: 0, id_holders: BTreeMap::new(), inbound_q2_open: BTreeSet::new(),
             interrupted: BTreeSet::new(), delivered: Vec::new(), next_marker: 1, surfaced_publishes: 0, disconnect_submitted: false,
             wire_log: Vec::new(), record_wire: false, last_event_emitted: 0, last_event_completions: 0, idle_service_streak: 0,
-            pending_resolves: VecDeque::new(), resolver_history: Vec::new(), phantom_aliases: BTreeMap::new(), overtaken_candidates: Vec::new(),
+            pending_resolves: VecDeque::new(), resolver_history: Vec::new(), phantom_aliases: BTreeMap::new(), unexplained_aliases: BTreeMap::new(), validation_failed_now: BTreeSet::new(), overtaken_candidates: Vec::new(),
         }
     }
 
@@ -473,6 +477,7 @@ impl World {
     fn ev_open(&mut self) {
         self.pending_resolves.clear();
         self.phantom_aliases.clear();
+        self.unexplained_aliases.clear();
         let now = self.now;
         let deadline = now + self.cfg.connect_timeout_ms;
         self.conns_opened += 1;
@@ -570,8 +575,13 @@ impl World {
                     // bytes produced by a failing service call are discarded by the drivers (they leave the loop); not a violation
                 }
                 self.absorb_resolver_calls();
+                // completions of this call are taken first (validation failures must be known when the emitted bytes are judged), but processed after the bytes
+                let completions = self.eng.take_completions();
+                self.validation_failed_now = completions.iter().filter(|c| matches!(c.result, Err(ErrKind::PacketValidationFailure))).map(|c| c.tag).collect();
                 if !errored { self.on_emitted(&produced); }
-                self.drain_completions("service");
+                let engine_state = self.eng.state();
+                for completion in completions { self.last_event_completions += 1; self.on_completion(completion, "service", engine_state); }
+                self.validation_failed_now.clear();
                 if self.dead { return; }
                 self.after_service_checks(state_before, err_kind, produced.len());
             }
@@ -654,7 +664,7 @@ impl World {
     pub(super) fn absorb_resolver_calls(&mut self) {
         for call in self.eng.take_resolver_calls() {
             match call {
-                ResolverCall::Reset(max) => { self.pending_resolves.clear(); self.phantom_aliases.clear(); self.resolver_history.clear(); self.resolver_history.push(ResolverCall::Reset(max)); }
+                ResolverCall::Reset(max) => { self.pending_resolves.clear(); self.phantom_aliases.clear(); self.unexplained_aliases.clear(); self.resolver_history.clear(); self.resolver_history.push(ResolverCall::Reset(max)); }
                 other => { self.resolver_history.push(other.clone()); self.pending_resolves.push_back(other) }
             }
         }
@@ -667,11 +677,15 @@ impl World {
         let Some(position) = position else { return; };
         for _ in 0..position {
             if let Some(ResolverCall::Resolve { topic, skip_topic, resolved_alias: Some(alias), .. }) = self.pending_resolves.pop_front() {
-                if !skip_topic { self.phantom_aliases.insert(alias, topic); }
+                if !skip_topic {
+                    // explained only by a publish on that topic that failed send-time validation
+                    let explained = self.ops.iter().any(|o| matches!(&o.pkt, Pkt::Publish(p) if p.topic == topic) && (matches!(o.result, Some(Err(ErrKind::PacketValidationFailure))) || self.validation_failed_now.contains(&o.tag)));
+                    if explained { self.phantom_aliases.insert(alias, topic); } else { self.unexplained_aliases.insert(alias, topic); }
+                }
             }
         }
         self.pending_resolves.pop_front();
-        if let (Some(alias), false) = (wire.topic_alias, wire.topic.is_empty()) { self.phantom_aliases.remove(&alias); }
+        if let (Some(alias), false) = (wire.topic_alias, wire.topic.is_empty()) { self.phantom_aliases.remove(&alias); self.unexplained_aliases.remove(&alias); }
     }
 
     /// reference predicate: which announced limit / static rule does this client->server packet break (None = conforms)
